@@ -83,8 +83,10 @@ class FactorColumnOp(BaseOp):
 
         factor_values = self.factor_values
         factor_names = self.factor_names
-        if len(factor_values) == 0:
+        # Both parameters are optional: default to all unique values and to names of the form column.value
+        if not factor_values:
             factor_values = df[self.column_name].unique()
+        if not factor_names:
             factor_names = [self.column_name + '.' +
                             str(column_value) for column_value in factor_values]
 
